@@ -20,6 +20,24 @@ class TowerHarness:
         self.oracle = dom_ring.RingOracle(self.ring)
         self.I.oracle = self.oracle
         self.functions = []
+        self.I.memcmp_hook = self._memcmp
+
+    def _memcmp(self, a, b, n):
+        """memcmp / bcmp over abstract field elements: the stored (Montgomery) representative is canonical (C02), so two elements have equal
+        bytes exactly when they are equal; a comparison that covers whole base-field elements is decided on the values, anything else is declined"""
+        S0 = SIZES[0]
+        if n % S0 != 0 or not (is_conc(a.off) and is_conc(b.off)):
+            return None
+        cond = None
+        for k in range(n // S0):
+            pa, pb = Ptr(a.obj, a.off + k * S0), Ptr(b.obj, b.off + k * S0)
+            try:
+                va, vb = self.tm.read(pa, 0), self.tm.read(pb, 0)
+            except ExecError:
+                return None
+            c = eir.ACond("atom", ("eq", va, vb))
+            cond = c if cond is None else eir.ACond("and", [cond, c])
+        return 0 if self.I.branch(cond) else 1
 
     def fn(self, pattern):
         name = self.prog.find1(pattern)
